@@ -1056,9 +1056,10 @@ impl BuiltInFunction {
                     unreachable!()
                 };
 
+                // a present optional is the bare value, as everywhere else at run time
                 let maybe_existing_value = map.insert(key.clone(), value.clone())?;
                 Ok((
-                    Some(Primitive::Optional(maybe_existing_value.map(Box::new))),
+                    Some(maybe_existing_value.unwrap_or(Primitive::Optional(None))),
                     None,
                 ))
             }
@@ -1097,8 +1098,10 @@ impl BuiltInFunction {
                     unreachable!()
                 };
 
+                // a present optional is the bare value, as everywhere else at run time
+                let maybe_removed_value = map.remove(key.clone())?;
                 Ok((
-                    Some(Primitive::Optional(map.remove(key.clone())?.map(Box::new))),
+                    Some(maybe_removed_value.unwrap_or(Primitive::Optional(None))),
                     None,
                 ))
             }
